@@ -37,7 +37,8 @@ TargetContainer map_optional(Source &&_source, Function const &_function)
   for (auto &&element : _source)
   {
     static_assert(
-        fcppt::optional::is_object<decltype(_function(element))>::value,
+        fcppt::optional::is_object<decltype(_function(
+            std::forward<decltype(element)>(element)))>::value,
         "map_optional requires a function that returns an optional");
 
     // Keep the value category of the element: a move range yields rvalues.
